@@ -374,6 +374,48 @@ func families(quick bool) []family {
 		doc := b.DiffDocOf([]xmlgen.ActionCfg{a}, nil)
 		diffContainer(r, c, doc.Want)
 	})
+	// boundary ids (placeholder -1, int32 limits, 2^31, 2^40 and beyond) in
+	// the element id / nd and member refs / changeset ids / all of them, for a
+	// standalone object and inside every container position
+	wheres := []uint{xmlgen.IDAtElem, xmlgen.IDAtNdRef | xmlgen.IDAtMemberRef, xmlgen.IDAtChangeset, xmlgen.IDAtAll}
+	actNames := []string{"create", "modify", "delete"}
+	add("id-range", []int{len(xmlgen.IDRange), 3, 11, len(wheres)}, func(r *kit.Run, c Case, d []int) {
+		b := newB(47, true)
+		id := xmlgen.IDRange[d[0]]
+		kind := xmlgen.KindNode + d[1]
+		forced := func() xmlgen.Obj {
+			b.ForceID, b.ForceWhere = &id, wheres[d[3]]
+			o := b.Full(kind)
+			b.ForceID = nil
+			return o
+		}
+		c.Desc = fmt.Sprintf("id %d kind %s placement %d where %#x", id, xmlgen.KindNames[kind], d[2], wheres[d[3]])
+		switch pl := d[2]; {
+		case pl == 0:
+			switch v := forced().Val.(type) {
+			case *osm.Node:
+				object(r, c, "node", v, &osm.Node{})
+			case *osm.Way:
+				object(r, c, "way", v, &osm.Way{})
+			case *osm.Relation:
+				object(r, c, "relation", v, &osm.Relation{})
+			}
+		case pl == 1:
+			x := b.OSMDocOf(1, []xmlgen.Obj{b.Small(kind), forced(), b.Small(kind)})
+			osmContainer(r, c, x.Want, false)
+		case pl <= 4:
+			x := b.ChangeDocOf(1, []xmlgen.Block{{Action: actNames[pl-2], Objs: []xmlgen.Obj{b.Small(kind), forced(), b.Small(xmlgen.KindNode)}}})
+			changeContainer(r, c, x.Want)
+		case pl <= 7:
+			o := forced()
+			n := b.Small(xmlgen.KindNode)
+			x := b.DiffDocOf([]xmlgen.ActionCfg{{Type: actNames[pl-5], Direct: &o}, {Type: "create", Direct: &n}}, nil)
+			diffContainer(r, c, x.Want)
+		default:
+			x := b.DiffDocOf([]xmlgen.ActionCfg{{Type: actNames[pl-8], HasOld: true, Old: []xmlgen.Obj{forced()}, HasNew: true, New: []xmlgen.Obj{forced()}}}, nil)
+			diffContainer(r, c, x.Want)
+		}
+	})
 	return fs
 }
 
@@ -423,14 +465,14 @@ func clip(s string, n int) string {
 
 // object round-trips one standalone object.
 func object(r *kit.Run, c Case, kind string, v interface{}, into interface{}) {
-	data, err := xml.Marshal(v)
+	data, err := safeMarshal(v, false)
 	if err != nil {
-		r.Violation("marshal-error/"+kind, fmt.Sprintf("%v: %v", c, err), c)
+		r.Violation(errClause("marshal", err)+"/"+kind, fmt.Sprintf("%v: %v", c, err), c)
 		return
 	}
 	record(r, c, kind, data)
-	if err := xml.Unmarshal(data, into); err != nil {
-		r.Violation("unmarshal-error/"+kind, fmt.Sprintf("%v: %v\n%s", c, err, clip(string(data), 600)), c)
+	if err := safeUnmarshal(data, into); err != nil {
+		r.Violation(errClause("unmarshal", err)+"/"+kind, fmt.Sprintf("%v: %v\n%s", c, err, clip(string(data), 600)), c)
 		return
 	}
 	if d := osmeq.Diff(v, into); d != "" {
@@ -446,18 +488,18 @@ func osmContainer(r *kit.Run, c Case, v *osm.OSM, indent bool) {
 	var data []byte
 	var err error
 	if indent {
-		data, err = xml.MarshalIndent(v, "", " ")
+		data, err = safeMarshal(v, true)
 	} else {
-		data, err = xml.Marshal(v)
+		data, err = safeMarshal(v, false)
 	}
 	if err != nil {
-		r.Violation("marshal-error/osm", fmt.Sprintf("%v: %v", c, err), c)
+		r.Violation(errClause("marshal", err)+"/osm", fmt.Sprintf("%v: %v", c, err), c)
 		return
 	}
 	record(r, c, "osm", data)
 	got := &osm.OSM{}
-	if err := xml.Unmarshal(data, got); err != nil {
-		r.Violation("unmarshal-error/osm", fmt.Sprintf("%v: %v\n%s", c, err, clip(string(data), 600)), c)
+	if err := safeUnmarshal(data, got); err != nil {
+		r.Violation(errClause("unmarshal", err)+"/osm", fmt.Sprintf("%v: %v\n%s", c, err, clip(string(data), 600)), c)
 		return
 	}
 	if d := osmeq.Diff(v, got); d != "" {
@@ -468,7 +510,8 @@ func osmContainer(r *kit.Run, c Case, v *osm.OSM, indent bool) {
 	// streaming scan of the same text against whole-document decoding of it
 	sc := osmxml.New(context.Background(), bytes.NewReader(data))
 	scanned := &osm.OSM{Version: got.Version, Generator: got.Generator, Copyright: got.Copyright, Attribution: got.Attribution, License: got.License}
-	for sc.Scan() {
+	var scanPanic string
+	for safeScan(sc, &scanPanic) {
 		switch o := sc.Object().(type) {
 		case *osm.Bounds:
 			scanned.Bounds = o
@@ -489,6 +532,10 @@ func osmContainer(r *kit.Run, c Case, v *osm.OSM, indent bool) {
 		}
 	}
 	sc.Close()
+	if scanPanic != "" {
+		r.Violation("scan-panic/osm", fmt.Sprintf("%v: osmxml.Scanner panicked: %s\nmarshalled: %s", c, scanPanic, clip(string(data), 600)), c)
+		return
+	}
 	if err := sc.Err(); err != nil && err != osm.ErrScannerClosed && err != io.EOF {
 		r.Violation("scan-error/osm", fmt.Sprintf("%v: %v", c, err), c)
 		return
@@ -499,15 +546,15 @@ func osmContainer(r *kit.Run, c Case, v *osm.OSM, indent bool) {
 }
 
 func changeContainer(r *kit.Run, c Case, v *osm.Change) {
-	data, err := xml.Marshal(v)
+	data, err := safeMarshal(v, false)
 	if err != nil {
-		r.Violation("marshal-error/osmChange", fmt.Sprintf("%v: %v", c, err), c)
+		r.Violation(errClause("marshal", err)+"/osmChange", fmt.Sprintf("%v: %v", c, err), c)
 		return
 	}
 	record(r, c, "osmChange", data)
 	got := &osm.Change{}
-	if err := xml.Unmarshal(data, got); err != nil {
-		r.Violation("unmarshal-error/osmChange", fmt.Sprintf("%v: %v\n%s", c, err, clip(string(data), 600)), c)
+	if err := safeUnmarshal(data, got); err != nil {
+		r.Violation(errClause("unmarshal", err)+"/osmChange", fmt.Sprintf("%v: %v\n%s", c, err, clip(string(data), 600)), c)
 		return
 	}
 	if d := osmeq.Diff(v, got); d != "" {
@@ -522,15 +569,15 @@ func changeContainer(r *kit.Run, c Case, v *osm.Change) {
 }
 
 func diffContainer(r *kit.Run, c Case, v *osm.Diff) {
-	data, err := xml.Marshal(v)
+	data, err := safeMarshal(v, false)
 	if err != nil {
-		r.Violation("marshal-error/diff", fmt.Sprintf("%v: %v", c, err), c)
+		r.Violation(errClause("marshal", err)+"/diff", fmt.Sprintf("%v: %v", c, err), c)
 		return
 	}
 	record(r, c, "diff", data)
 	got := &osm.Diff{}
-	if err := xml.Unmarshal(data, got); err != nil {
-		r.Violation("unmarshal-error/diff", fmt.Sprintf("%v: %v\n%s", c, err, clip(string(data), 600)), c)
+	if err := safeUnmarshal(data, got); err != nil {
+		r.Violation(errClause("unmarshal", err)+"/diff", fmt.Sprintf("%v: %v\n%s", c, err, clip(string(data), 600)), c)
 		return
 	}
 	if d := osmeq.Diff(v, got); d != "" {
@@ -575,7 +622,8 @@ func (f *flat) add(o *osm.OSM) {
 func scanAgainst(r *kit.Run, c Case, kind string, data []byte, want *flat) {
 	sc := osmxml.New(context.Background(), bytes.NewReader(data))
 	var got flat
-	for sc.Scan() {
+	var scanPanic string
+	for safeScan(sc, &scanPanic) {
 		switch o := sc.Object().(type) {
 		case *osm.Bounds:
 			got.bounds = append(got.bounds, o)
@@ -596,6 +644,10 @@ func scanAgainst(r *kit.Run, c Case, kind string, data []byte, want *flat) {
 		}
 	}
 	sc.Close()
+	if scanPanic != "" {
+		r.Violation("scan-panic/"+kind, fmt.Sprintf("%v: osmxml.Scanner panicked: %s\nmarshalled: %s", c, scanPanic, clip(string(data), 600)), c)
+		return
+	}
 	if err := sc.Err(); err != nil && err != osm.ErrScannerClosed && err != io.EOF {
 		r.Violation("scan-error/"+kind, fmt.Sprintf("%v: %v", c, err), c)
 		return
@@ -690,11 +742,55 @@ func checkNames(r *kit.Run, c Case, kind string, data []byte, skipRoot bool) {
 	}
 }
 
+// A panic inside the library is an observation about one value, not the end
+// of the run: the guards turn it into an error with its own violation clause.
+type panicErr struct{ msg string }
+
+func (p panicErr) Error() string { return "panic: " + p.msg }
+
+func errClause(base string, err error) string {
+	if _, ok := err.(panicErr); ok {
+		return base + "-panic"
+	}
+	return base + "-error"
+}
+
+func safeMarshal(v interface{}, indent bool) (data []byte, err error) {
+	defer func() {
+		if p := recover(); p != nil {
+			err = panicErr{fmt.Sprint(p)}
+		}
+	}()
+	if indent {
+		return xml.MarshalIndent(v, "", " ")
+	}
+	return xml.Marshal(v)
+}
+
+func safeUnmarshal(data []byte, v interface{}) (err error) {
+	defer func() {
+		if p := recover(); p != nil {
+			err = panicErr{fmt.Sprint(p)}
+		}
+	}()
+	return xml.Unmarshal(data, v)
+}
+
+func safeScan(sc *osmxml.Scanner, pan *string) (ok bool) {
+	defer func() {
+		if p := recover(); p != nil {
+			*pan = fmt.Sprint(p)
+			ok = false
+		}
+	}()
+	return sc.Scan()
+}
+
 func main() {
 	kit.Main("C04", "exploration", func(r *kit.Run) {
 		r.Rule("complete mixed-radix products per family (per-kind presence lattices of every field incl. annotations; " +
 			"nested nd/update/member/comment lattices; every string position x text class; OSM over every subset of the 7 kinds x root attribute subsets; " +
-			"Change over {nil,empty,elements,bounds,elements+bounds}^3; Diff over type x direct x old x new, singly and in pairs). " +
+			"Change over {nil,empty,elements,bounds,elements+bounds}^3; Diff over type x direct x old x new, singly and in pairs; boundary ids (-1, int32 limits, 2^31, 2^40, 2^40+1, 2^44+5, 2^62) x node/way/relation x {element id, refs, changeset ids, all} x {standalone, OSM, each Change block, bare/old+new of each Diff action type}). " +
 			"A case is non-trivial when its marshalled text differs from the zero value's; distinct = distinct (family, marshalled text).")
 		r.Assume("encoding/xml (standard library) is trusted as the tokenizer of the output and as the engine the library's struct tags run on")
 		r.Assume("expected values are the enumerated Go values themselves; equality is gen/osmeq (nil==empty, instants, empty discussion==absent)")
